@@ -683,6 +683,20 @@ def corner_cases(dl):
                     out.append(("loopcontrol-position",
                                 tr(outer + "{% for i in y" + rec + " %}" + inner + "{% endfor %}"
                                    + ("{% endfor %}" if outer else ""))))
+    # tag names taken from the parser's own vocabulary: every public attribute of the Parser
+    # class (parse_<x> -> x as well), of the token stream and of the lexer
+    import jinja2.lexer
+    import jinja2.parser
+
+    words = set()
+    for cls in (jinja2.parser.Parser, jinja2.lexer.TokenStream, jinja2.lexer.Lexer):
+        for n in dir(cls):
+            if not n.startswith("__"):
+                words.add(n)
+                words.update(n.split("_", 1)[1:] if n.startswith("parse_") else ())
+    for w in sorted(words):
+        out.append(("tag-named-like-parser-attribute", tr("{% " + w + " %}")))
+        out.append(("tag-named-like-parser-attribute", tr("{% " + w + " x %}y{% end" + w + " %}")))
     for t in CORNER_TAGS:
         out.append(("tag", tr("{% " + t + " %}")))
         first = t.split(" ", 1)[0].split("(")[0]
